@@ -1,4 +1,5 @@
 mod corpus;
+mod diag;
 mod engine;
 mod exec;
 mod faults;
@@ -17,7 +18,7 @@ use engine::{Ctx, Property};
 use std::path::PathBuf;
 
 fn all_props() -> Vec<Box<dyn Property>> {
-    vec![Box::new(props::c02::C02), Box::new(props::c03::C03), Box::new(props::c19::C19)]
+    vec![Box::new(props::c02::C02), Box::new(props::c03::C03), Box::new(props::c12::C12), Box::new(props::c17::C17), Box::new(props::c18::C18), Box::new(props::c19::C19)]
 }
 
 fn usage() -> ! {
@@ -58,7 +59,6 @@ fn main() {
     }
     let scratch = exec::make_scratch();
     let cfg = exec::Config { exe, shim, scratch: scratch.clone() };
-    exec::start_watchdog();
     let corpus = corpus::load(&repo.join("tests/stdout"));
     let props = all_props();
 
@@ -87,6 +87,7 @@ fn main() {
     } else if args[1] == "replay" {
         let file = args.get(2).cloned().unwrap_or_else(|| usage());
         let ctx = Ctx::new(cfg, seed, "quick", corpus, verif_dir);
+        exec::start_watchdog();
         replay::replay(&ctx, &props, &file)
     } else {
         let id = args[1].clone();
